@@ -91,6 +91,38 @@ def execute(ctx, case):
     ctx.fail('C10:overflow-counter', 'cache.overflow counter=%s, overflow events=%d, attributed to stores=%d' % (
       counter, len(run.overflow_events), refused), case, 'counter')
     return
+  # the signal has to FEED the reported counter: run the daemon's periodic instrumentation pass twice on the live
+  # (possibly full) cache - it stores carbon's own metrics into the same cache, so it causes refusals itself - and
+  # demand conservation: signals raised == values reported as cache.overflow + what is still pending
+  instr = b.instrumentation
+  reported = []
+  real_record = env.need(instr, 'cache_record')
+  if not (refused or run.final_size >= hard) or (ctx.evaluations % 3 and not ctx.replaying):
+    real_record = None      # nothing was refused and the cache is not full: skip the (slow) instrumentation pass
+
+  def recording_record(metric, value):
+    if metric == 'cache.overflow':
+      reported.append(value)
+    real_record(metric, value)
+  if real_record is not None:
+    instr.cache_record = recording_record
+  try:
+    b.settings['program'] = 'carbon-cache'
+    for _ in range(2 if real_record is not None else 0):
+      instr.recordMetrics()
+  except Exception as e:  # noqa
+    ctx.fail('C10:recordMetrics-raised:%s' % type(e).__name__, 'instrumentation.recordMetrics() raised %r' % (e,), case)
+    return
+  finally:
+    if real_record is not None:
+      instr.cache_record = real_record
+  pending = b.instrumentation.stats.get('cache.overflow', 0)
+  if real_record is not None and sum(reported) + pending != len(run.overflow_events):
+    ctx.fail('C10:overflow-signals-not-reported',
+             '%d overflow signals were raised (%d of them while the instrumentation pass stored its own metrics into the full '
+             'cache) but cache.overflow was reported as %r with %d pending' % (
+               len(run.overflow_events), len(run.overflow_events) - refused, reported, pending), case, 'counter')
+    return
   # non-triviality: a refusal and an accepted duplicate while full
   dup_full = False
   state = {}
@@ -118,8 +150,9 @@ def execute(ctx, case):
 
 def run(ctx):
   if (ctx.shard or 0) == 0:
-    for mcs, flow in ((1, False), (2, True), (3, False)):
-      c02.enumerate_single(ctx, execute, extra={'max_cache_size': mcs, 'flow': flow})
+    for mcs, flow in (((1, False), (2, True)) if ctx.quick else ((1, False), (2, True), (3, False))):
+      c02.enumerate_single(ctx, execute, extra={'max_cache_size': mcs, 'flow': flow},
+                           workloads=c02.DUP_WORKLOADS[:1] if ctx.quick else None)
   n_c, n_s = (260, 110) if ctx.quick else (900, 350)
   for i, s in enumerate(cachesim.STRATEGIES):
     run_given(ctx, bounded(c02.concurrent_cases(s)), execute, n_c, salt=30 + i)
